@@ -252,7 +252,10 @@ Definition synced (e : env) (st : state) (u d : nat) : Z :=
 
 (* the flat projection compared with the implementation, in this order:
    now; per pool: accrual time (-1 = none), total, global index per denom;
-   per user: claim exists, per pool (shares, user index per denom),
+   per user: claim exists, per pool (shares, user index per denom -- shown as 0
+             while the user has no shares in the pool: the index is then irrelevant,
+             every re-creation of the position overwrites it, and the sources differ in
+             whether they keep, refresh or delete it),
              stored reward per denom, synchronised reward per denom, bank balance per denom;
    module account balance per denom *)
 Definition project (e : env) (st : state) : list Z :=
@@ -262,7 +265,7 @@ Definition project (e : env) (st : state) : list Z :=
   ++ flat_map (fun p => [optz (g_time st p); tot st p] ++ map (g_idx st p) ds) ps
   ++ flat_map (fun u =>
         [b2z (has_claim st u)]
-        ++ flat_map (fun p => sh st u p :: map (u_idx st u p) ds) ps
+        ++ flat_map (fun p => sh st u p :: map (fun d => if sh st u p =? 0 then 0 else u_idx st u p d) ds) ps
         ++ map (rew st u) ds
         ++ map (synced e st u) ds
         ++ map (bal st u) ds) (seq 0 (nusers e))
@@ -331,11 +334,25 @@ Definition retab (e : env) (st : state) : state :=
     (tab2 nu nd (integral st)) (tab2 nu nd (due st)) (tab2 nu nd (nsync st)) (tab2 nu nd (claimed st))
     (tab1 0 nd (emitted st)) (tab1 0 nd (accslack st)).
 
-Fixpoint first_mismatch (e : env) (s : state) (shadow : list Z) (h : list (op * obs)) (i : nat) : option nat :=
+(* one step of the implementation can be several operations of the machine (a
+   hard message synchronises every denom of the deposit; a block first moves the
+   totals by accrued interest): the operations run in sequence, all or nothing *)
+Fixpoint step_list (e : env) (st : state) (os : list op) : outcome state unit :=
+  match os with
+  | [] => Ok st tt
+  | o :: r =>
+      match step e st o with
+      | Ok st1 _ => step_list e (retab e st1) r
+      | Err => Err
+      | Panic => Panic
+      end
+  end.
+
+Fixpoint first_mismatch (e : env) (s : state) (shadow : list Z) (h : list (list op * obs)) (i : nat) : option nat :=
   match h with
   | [] => None
-  | (o, ob) :: r =>
-      let res := step e s o in
+  | (os, ob) :: r =>
+      let res := step_list e s os in
       let s' := retab e (match res with Ok s1 _ => s1 | _ => s end) in
       let shadow' := apply_obs shadow ob in
       if rclass_eqb (class_of res) (o_class ob)
@@ -360,7 +377,7 @@ Record history := mkHist {
   h_gtime : list Z;                (* accrual times at the start (the test app runs one begin block at genesis), -1 = none *)
   h_tot : list Z;                  (* source totals at the start (delegator: the genesis validator's stake) *)
   h_init : list Z;                 (* the implementation's flat projection before the first operation *)
-  h_steps : list (op * obs)
+  h_steps : list (list op * obs)
 }.
 
 Definition check_history (h : history) : option nat :=
